@@ -112,7 +112,8 @@ def dumpHandle (h : Heap) (sn : Seen) (m : Ref) : String × Seen :=
     let (ki, si) := label sn.i i
     let sn := { sn with i := si }
     let inv := match h.get i with
-      | some (.inv d) => "{" ++ d.desc ++ ";" ++ showRat d.tolEig ++ ";" ++ showRat d.tolEq ++ "}"
+      | some (.inv d) => "{" ++ d.desc ++ ";" ++ showRat d.tolEig ++ ";" ++ showRat d.tolEq ++ ";" ++
+          String.join (d.quantities.map (fun (q : Quantity) => match q.logly with | some true => "T" | some false => "F" | none => "-")) ++ "}"
       | _ => "{?}"
     let (vs, sn) := dumpVars h sn vs
     (s!"M{km}:I{ki}{inv}[" ++ " ".intercalate vs ++ "]", sn)
@@ -180,6 +181,14 @@ def parseOp (h : Heap) (hs : List Ref) (ws : List String) : Option (Funs × Op) 
     let x ← parseRat? x
     let e ← (if which = "eig" then some true else if which = "eq" then some false else none)
     pure (noF, .setTol m e x)
+  | ["logly", k, b, names] => do       -- change_logly(new, names); `-` = all loggable variables
+    let m ← handle? hs k
+    let b ← (if b = "T" then some true else if b = "F" then some false else none)
+    pure (noF, .mutInv m (changeLogly b (if names = "-" then [] else names.splitOn ",")))
+  | ["rtol", k, x] => do               -- reset_tolerance(); the default is sent along
+    let m ← handle? hs k
+    let x ← parseRat? x
+    pure (noF, .mutInv m (resetTol x))
   | ["copy", k] => do pure (noF, .copy (← handle? hs k))
   | ["pickle", k] => do pure (noF, .pickle (← handle? hs k))
   | ["view", k, ix] => do
